@@ -491,6 +491,63 @@ func judgeC06(c WCase, f facts) *verdict {
 	return nil
 }
 
+// ---- C05: per instance, OnLaunch first and nothing after the own OnKilled (a restarted instance starts over)
+func judgeC05(c WCase, f facts) *verdict {
+	type key struct {
+		path string
+		inst int
+	}
+	state := map[key]int{} // 0 awaiting OnLaunch, 1 running
+	for i, e := range f.trace {
+		if e.Actor == "/zz-observer" || strings.HasPrefix(e.Kind, "hook:") {
+			continue
+		}
+		k := key{e.Actor, e.Inst}
+		ctx := func() string {
+			lo := i - 6
+			if lo < 0 {
+				lo = 0
+			}
+			return world.Fmt(f.trace[lo : i+1])
+		}
+		switch {
+		case e.Kind == "launch":
+			if state[k] == 1 {
+				return &verdict{"C05/window|onlaunch|twice", fmt.Sprintf("%s received OnLaunch while it was already running: %s; case: %s", e.Actor, ctx(), c.Describe())}
+			}
+			state[k] = 1
+		case e.Kind == "killed:"+e.Actor:
+			if state[k] != 1 {
+				return &verdict{"C05/window|own-killed|out-of-place", fmt.Sprintf("%s saw its own OnKilled without a preceding OnLaunch of that incarnation: %s; case: %s", e.Actor, ctx(), c.Describe())}
+			}
+			state[k] = 0
+		default:
+			if state[k] != 1 {
+				what := "before its OnLaunch"
+				for _, p := range f.trace[:i] {
+					if p.Actor == e.Actor && p.Inst == e.Inst && p.Kind == "killed:"+e.Actor {
+						what = "after its own OnKilled"
+					}
+				}
+				return &verdict{"C05/window|outside-incarnation", fmt.Sprintf("%s handled %s %s: %s; case: %s", e.Actor, e.Kind, what, ctx(), c.Describe())}
+			}
+		}
+	}
+	// a spawn that was refused never receives anything; one that succeeded is launched
+	if f.successor {
+		launched := false
+		for _, e := range f.trace[f.succAtTr:] {
+			if e.Actor == world.Path(c.target()) && !f.predInsts[e.Inst] && e.Kind == "launch" {
+				launched = true
+			}
+		}
+		if !launched {
+			return &verdict{"C05/window|onlaunch|missing", fmt.Sprintf("the actor spawned under the name of the terminating one (ActorOf returned no error) never received OnLaunch; case: %s", c.Describe())}
+		}
+	}
+	return nil
+}
+
 func check(t *testing.T, fatalf func(string, ...any), c WCase, prop string) {
 	vt.SetCase(map[string]any{"window": c})
 	f, labels, herr := run(t, c)
@@ -504,6 +561,8 @@ func check(t *testing.T, fatalf func(string, ...any), c WCase, prop string) {
 	case !f.parked:
 	case prop == "C03":
 		v = judgeC03(c, f)
+	case prop == "C05":
+		v = judgeC05(c, f)
 	default:
 		v = judgeC06(c, f)
 	}
@@ -517,6 +576,10 @@ func check(t *testing.T, fatalf func(string, ...any), c WCase, prop string) {
 
 func TestC03Window(t *testing.T) {
 	rapid.Check(t, func(rt *rapid.T) { check(t, rt.Fatalf, genCase(rt), "C03") })
+}
+
+func TestC05Window(t *testing.T) {
+	rapid.Check(t, func(rt *rapid.T) { check(t, rt.Fatalf, genCase(rt), "C05") })
 }
 
 func TestC06Window(t *testing.T) {
